@@ -213,8 +213,11 @@ def tlc(ctx, module, cfg, specdir=None, workers=None, timeout=600, simulate=None
     java = ["java", "-XX:+UseParallelGC", "-Xss64m"]
     if (workers or NCPU) <= 2:
         java.append("-XX:ParallelGCThreads=2")
-    if heap:
-        java.append("-Xmx" + heap)
+    # default heap caps: several TLC JVMs run in parallel (and other checks may run on the
+    # same machine); the JVM default of 25% RAM each got JVMs OOM-killed
+    if not heap:
+        heap = "3g" if (workers or NCPU) <= 2 else "8g"
+    java.append("-Xmx" + heap)
     if deque:
         java.append("-Dtlc2.tool.queue.IStateQueue=StateDeque")
     java += ["-cp", TLA_JAR + ":" + TLA_CM, "tlc2.TLC"]
